@@ -269,9 +269,36 @@ func checkProperty(p *Program, prop, tier string, timeoutS, workers int, start t
 			funcsUnder = append(funcsUnder, r.Name+tag)
 		}
 	}
+	// lemmas tagged with the property, closed under the lemmas they use or apply
+	inCone := map[string]bool{}
 	for _, l := range p.lemmas {
 		if contractMentions(l, prop) {
-			results = append(results, p.verifyLemma(l))
+			inCone[l.Short] = true
+		}
+	}
+	for changed := true; changed; {
+		changed = false
+		for _, l := range p.lemmas {
+			if !inCone[l.Short] {
+				continue
+			}
+			for _, u := range lemmaDeps(l) {
+				if !inCone[u] {
+					inCone[u] = true
+					changed = true
+				}
+			}
+		}
+	}
+	for _, l := range p.lemmas {
+		if inCone[l.Short] {
+			lr := p.verifyLemma(l)
+			for _, o := range lr.Obls {
+				if !hasProp(o.Props, prop) {
+					o.Props = append(append([]string{}, o.Props...), prop)
+				}
+			}
+			results = append(results, lr)
 		}
 	}
 	if prop == "C20" {
@@ -463,4 +490,15 @@ func reportFailure(p *Program, prop, replayDir string, oc *oblOutcome, note stri
 		return fmt.Sprintf("VIOLATION property=%s replay=%s obligation=%s status=%s replayed-on-real-code", prop, file, oc.Obl.Name, oc.Status)
 	}
 	return fmt.Sprintf("VIOLATION property=%s replay=%s obligation=%s status=%s no-failing-input-found", prop, file, oc.Obl.Name, oc.Status)
+}
+
+// lemmaDeps lists the lemmas a lemma takes as hypotheses (uses) or instantiates (apply).
+func lemmaDeps(l *Contract) []string {
+	out := append([]string{}, l.Uses...)
+	for _, a := range l.Applies {
+		if call, ok := a.E.(*ECall); ok {
+			out = append(out, call.Fn)
+		}
+	}
+	return out
 }
